@@ -40,8 +40,10 @@ impl<E: Spanned> Spanned for ByRef<'_, E> {
 }
 fn errj<E: Spanned + std::fmt::Display>(src: &str, e: &E) -> Value {
     let fmt = SpannedDiagnosticFormatter::new(src, std::path::Path::new("x.y"));
-    let shown = fmt.format_warning(ByRef(e)).contains(&e.to_string());
-    json!({"kind": e.to_string(), "spans": spans_of(e), "shown": shown})
+    let rd = fmt.format_warning(ByRef(e));
+    let shown = rd.contains(&e.to_string());
+    json!({"kind": e.to_string(), "spans": spans_of(e), "shown": shown, "rd": cps(&rd),
+           "dup": matches!(e.spanskind(), cfgrammar::yacc::parser::SpansKind::DuplicationError)})
 }
 
 fn cps(s: &str) -> Vec<u32> {
